@@ -95,6 +95,9 @@ func loadEngine(repoDir string, pkgPaths []string) (*Engine, error) {
 	if err := e.finishContracts(); err != nil {
 		return nil, err
 	}
+	if err := e.resolveMonitors(); err != nil {
+		return nil, err
+	}
 	for fn := range ssautil.AllFunctions(prog) {
 		if fn.Pkg != nil && strings.HasPrefix(fn.Pkg.Pkg.Path(), repoMod) || fn.Parent() != nil {
 			e.funcs[fn.String()] = fn
@@ -302,7 +305,7 @@ func (e *Engine) newFnCtx(fn *ssa.Function, discovery bool, prev *FnCtx) *FnCtx 
 	fc := &FnCtx{eng: e, fn: fn, con: e.contracts[fn.String()], sc: newScript(), sorts: map[string]string{}, oblNames: map[string]int{},
 		discovery: discovery, loopWrites: map[*ssa.BasicBlock]map[string]bool{}, loopCellW: map[*ssa.BasicBlock]map[int]bool{}, loopHavocAll: map[*ssa.BasicBlock]bool{},
 		cellOf: map[string]int{}, cellSeq: map[string]int{}, cellType: map[int]types.Type{}, assumptions: map[string]bool{}, inlined: map[string]bool{}, usedContracts: map[string]bool{},
-		tagTypes: map[int]types.Type{}, poolVals: map[string]bool{}, immut: map[string]bool{}, writtenNames: map[string]bool{}, nonNil: map[string]bool{}}
+		tagTypes: map[int]types.Type{}, poolVals: map[string]bool{}, freshObj: map[string]bool{}, immut: map[string]bool{}, writtenNames: map[string]bool{}, nonNil: map[string]bool{}}
 	if fc.con != nil {
 		fc.props = fc.con.Props
 	}
